@@ -5,6 +5,8 @@ import os
 import sys
 
 sys.path.insert(0, os.path.dirname(os.path.abspath(__file__)))
+if os.environ.get("CPPPO_SRC"):
+    sys.path.insert(0, os.environ["CPPPO_SRC"])
 import framework  # noqa: E402
 
 
